@@ -3,6 +3,7 @@
 //!
 //! `codec gen <PROP> <tier> <seed>`   generate cases for a property, run the implementation,
 //!                                     print one protocol line per case
+//! `codec cases <PROP> <tier> <seed>` print the cases `gen` would run, without running them
 //! `codec replay`                      read `op\targs…` lines on stdin, run the implementation,
 //!                                     print full protocol lines
 use std::io::{BufRead, Write};
@@ -28,6 +29,28 @@ fn main() {
             let mut emit = |op: &str, a: Vec<String>| {
                 let obs = run_caught(op, &a);
                 writeln!(out, "{}", line(op, &a, &obs)).unwrap();
+            };
+            let r = catch_unwind(AssertUnwindSafe(|| {
+                ops::generate(&prop, tier == "thorough", &mut rng, &mut emit)
+            }));
+            if r.is_err() {
+                eprintln!("generator panicked");
+                std::process::exit(3);
+            }
+        }
+        Some("cases") => {
+            // the cases `gen` would run, not executed (used to isolate a case that kills the process)
+            let prop = args[2].clone();
+            let tier = args[3].clone();
+            let seed: u64 = args[4].parse().expect("seed");
+            let mut rng = Rng::new(seed);
+            let mut emit = |op: &str, a: Vec<String>| {
+                let mut l = op.to_string();
+                for x in &a {
+                    l.push('\t');
+                    l.push_str(x);
+                }
+                writeln!(out, "{l}").unwrap();
             };
             let r = catch_unwind(AssertUnwindSafe(|| {
                 ops::generate(&prop, tier == "thorough", &mut rng, &mut emit)
